@@ -55,6 +55,11 @@ const (
 //	"undecodable" replace the next response by a well-formed ttRPC response frame whose body is
 //	              Bytes (Level "frame": Bytes stand where the ttRPC Response message should be;
 //	              Level "payload": a valid ttRPC Response whose payload field is Bytes)
+//	"dying"       the plugin dies in the middle of sending something of its own (an unsolicited
+//	              UpdateContainers request, say) at the moment a request reaches it: Bytes (an
+//	              incomplete multiplexer frame) are put on the runtime hop when the plan is
+//	              armed, and both hops are closed as soon as the last byte of the next complete
+//	              runtime->plugin frame has been read
 //	"garbage"     replace the next response by forged bytes (Level "trunk": raw bytes with a
 //	              forged multiplexer header; "mux": a valid multiplexer frame for the plugin
 //	              service connection carrying Bytes; "ttrpc": valid multiplexer frame, forged
@@ -149,7 +154,25 @@ func (p *Proxy) Arm(pl Plan) {
 	p.left = pl.K
 	p.rep = Report{FirstLen: [2]int{-1, -1}}
 	p.swallow = false
+	rc := p.rc
 	p.mu.Unlock()
+	if pl.Kind == "dying" && rc != nil && len(pl.Bytes) > 0 {
+		rc.Write(pl.Bytes)
+	}
+}
+
+// dieNow: a "dying" plan is armed and the request has just arrived completely.
+func (p *Proxy) dieNow(d int) bool {
+	if d != R2P {
+		return false
+	}
+	p.mu.Lock()
+	defer p.mu.Unlock()
+	if p.plan != nil && p.plan.Kind == "dying" && !p.rep.Fired {
+		p.rep.Fired = true
+		return true
+	}
+	return false
 }
 
 // Disarm removes the plan and tells what it did.
@@ -343,6 +366,10 @@ func (p *Proxy) pump(d int, src, dst net.Conn) {
 				if thGot == ttrpcHdrLen {
 					p.noteRequest(conn, th[:])
 				}
+			}
+			if left == n && p.dieNow(d) {
+				p.end("proxy")
+				return
 			}
 			if !p.forward(d, dst, buf[:n]) {
 				return
